@@ -46,12 +46,18 @@ def generate(ctx):
             ids['ga'] = ctx.add('get_by_path_array %s %s' % (e, p)).id
             ids['pe'] = ctx.add('path_exists %s %s' % (e, p)).id
             ids['pmatch'] = ctx.add('path_match %s %s' % (e, p)).id
-            ctx.trials.append((v, p, ps[0][0] == 'P' and len(ps) == 1, ids))
+            # the same selection appended to a buffer that already holds an earlier result: the offsets must delimit the
+            # items in THAT buffer
+            pre = gen.enc(r.choice(ds)) if r.random() < 0.3 else None
+            if pre is not None:
+                for m in ('all', 'array', 'mixed'):
+                    ids[m + '_pre'] = ctx.add('select@%s %s %s %s' % (pre.hex(), e, p, m)).id
+            ctx.trials.append((v, p, ps[0][0] == 'P' and len(ps) == 1, ids, pre))
 
 
 def judge(ctx):
     impl = ctx.impl
-    for v, p, is_pred, ids in ctx.trials:
+    for v, p, is_pred, ids, pre in ctx.trials:
         o = {k: impl.get(i, 'missing') for k, i in ids.items()}
         case = {'doc': gen.vtext(v), 'path': p}
         if any(x == 'panic' for x in o.values()):
@@ -64,6 +70,13 @@ def judge(ctx):
         if any(x is None for x in sel.values()):
             ctx.violate('modes disagree on success/error', case=case, observed=o)
             continue
+        if pre is not None:
+            for m in ('all', 'array', 'mixed'):
+                sp = parse_sel(o[m + '_pre'])
+                d0, o0 = sel[m]
+                if sp is None or sp[0] != pre + d0 or sp[1] != [x + len(pre) for x in o0]:
+                    ctx.violate('selection into a buffer that already holds a result: data is not prefix ++ items or the offsets '
+                                'do not delimit the items in that buffer', case=case, mode=m, prefix=pre.hex()[:64], observed=[o[m], o[m + '_pre'][:300]])
         if is_pred:
             want = sel['all'][0]
             for m in ('first', 'array', 'mixed', 'g', 'gf', 'ga'):
